@@ -689,6 +689,15 @@ class Fn:
                 body = body[:pos] + ins + body[pos:]
         # proof blocks at anchors
         for (anchor, side, text) in self.proofs:
+            if anchor in ("@start", "@end"):
+                # position-only anchors: right after the opening brace / right before the closing brace of the body
+                if anchor == "@start":
+                    i0 = body.index("{") + 1
+                    body = body[:i0] + "\n" + text.rstrip("\n") + "\n" + body[i0:]
+                else:
+                    i1 = body.rindex("}")
+                    body = body[:i1] + text.rstrip("\n") + "\n" + body[i1:]
+                continue
             ms = list(re.finditer(anchor, body))
             if len(ms) != 1:
                 raise Drift("%s: proof anchor /%s/ matches %d times" % (where, anchor, len(ms)))
